@@ -34,6 +34,41 @@ def parse_dmat(s):
     return np.array(rows, dtype=complex) / (2 ** int(e))
 
 
+def call_fn(fn, a):
+    """the implementation of a translated definition: a gate function of gates.py, or (`cls_<Class>`) the
+    `get_compact_qobj` of a gate class that returns a literal matrix itself"""
+    import importlib
+    if fn.startswith("cls_"):
+        gc = importlib.import_module("qutip_qip.operations.gateclass")
+        cls = getattr(gc, fn[4:])
+        return cls(targets=[0, 1], arg_value=(a[0] if len(a) == 1 else list(a))).get_compact_qobj()
+    gm = importlib.import_module("qutip_qip.operations.gates")
+    f = getattr(gm, fn)
+    return f(a) if fn == "qasmu_gate" else f(*a)
+
+
+def classify_ctrl_exc(e):
+    """exceptions of controlled_gate -> the model's refusal kinds (anything else is reported verbatim = disagreement)"""
+    msg = str(e)
+    if isinstance(e, TypeError):
+        if "has no len" in msg:
+            return "lenOfInt"
+        if "targets should be" in msg:
+            return "nested"
+    if isinstance(e, IndexError):
+        return "blockIndex" if "assignment index" in msg else "index"
+    if isinstance(e, ValueError):
+        if "target qutbis" in msg or "target qubits" in msg:
+            return "count"
+        if "smaller than N" in msg:
+            return "range"
+        if "do not match" in msg:
+            return "dims"
+        if "invalid order" in msg:
+            return "permute"
+    return "other:" + type(e).__name__ + ":" + msg[:80]
+
+
 def nparams(known, fn):
     return len(known[fn][1])
 
@@ -133,6 +168,26 @@ class C09(PropertyCheck):
         "QipVerif.C09.qasmu_def", "QipVerif.C09.qasmu_unitary", "QipVerif.C09.snot_unitary",
         "QipVerif.C09.sqrtnot_sq", "QipVerif.C09.fixed_gates_unitary", "QipVerif.C09.sqrt_relations",
         "QipVerif.C09.controlled_fixed_block", "QipVerif.C09.ctrl_apply",
+        # documented forms for all parameters (closed form, matrix exponential, docstring matrix)
+        "QipVerif.C09.rotOf_is_exp", "QipVerif.C09.rx_exp", "QipVerif.C09.ry_exp", "QipVerif.C09.rz_exp",
+        "QipVerif.C09.qrot_doc", "QipVerif.C09.qrot_exp", "QipVerif.C09.qrot_unitary",
+        "QipVerif.C09.ms_doc", "QipVerif.C09.ms_exp", "QipVerif.C09.ms_doc_matrix", "QipVerif.C09.ms_unitary",
+        "QipVerif.C09.rzx_doc", "QipVerif.C09.rzx_exp", "QipVerif.C09.rzx_doc_matrix", "QipVerif.C09.rzx_unitary",
+        "QipVerif.C09.berkeley_doc", "QipVerif.C09.berkeley_exp", "QipVerif.C09.berkeley_unitary",
+        "QipVerif.C09.swapalpha_doc", "QipVerif.C09.swapalpha_mix", "QipVerif.C09.swapalpha_unitary",
+        "QipVerif.C09.swapalpha_mul", "QipVerif.C09.swapalpha_special",
+        "QipVerif.C09.sqrtswap_sq", "QipVerif.C09.sqrtiswap_sq", "QipVerif.C09.iswap_doc", "QipVerif.C09.iswap_doc_matrix",
+        "QipVerif.C09.cphase_eq_ctrl", "QipVerif.C09.cphase_doc_matrix",
+        # unitarity of every generated gate over C
+        "QipVerif.C09.ctrl_unitary", "QipVerif.C09.parametric_gates_unitary", "QipVerif.C09.fixed_gates_unitary_C",
+        # controlled_gate in general
+        "QipVerif.C09.controlled_apply", "QipVerif.C09.controlled_unitary", "QipVerif.C09.controlled_mul",
+        "QipVerif.C09.ctrl_is_ctrlN", "QipVerif.C09.controlled_gate_spec", "QipVerif.C09.controlled_gate_model",
+        "QipVerif.C09.controlled_gate_unitary", "QipVerif.C09.controlled_gate_shapes",
+        "QipVerif.C09.controlled_gate_mixed_shapes", "QipVerif.C09.controlled_gate_mixed_shapes_witness",
+        # names offered by the lookup paths
+        "QipVerif.C09.path_names", "QipVerif.C09.path_refusals", "QipVerif.C09.class_only_gates",
+        "QipVerif.C09.circuit_dispatch",
     ]
     base_theorems = list(theorems)
     technique = ("Lean 4: gate functions translated from the source into matrices over C; unitarity and documented form "
@@ -158,7 +213,8 @@ class C09(PropertyCheck):
         self.known, self.chain, self.classes, self.class_map = known, chain, classes, class_map
         self.theorems = list(self.base_theorems) + list(tg.regenerate.path_theorems)
         self.path_skipped = tg.regenerate.path_skipped
-        return ["GateDefs.lean", "GateDefsF.lean"]
+        self.extra = tg.regenerate.extra
+        return ["GateDefs.lean", "GateDefsF.lean", "GateExtra.lean", "GatePaths.lean"]
 
     # ---------------------------------------------------------------------------------
     def correspondence(self, ctx, res):
@@ -177,9 +233,8 @@ class C09(PropertyCheck):
                 cases.append((fn, a))
         outs = drv.run([f"gatef fn={fn} args={','.join(str(f2b(x)) for x in a)}" for fn, a in cases])
         for (fn, a), o in zip(cases, outs):
-            f = getattr(gm, fn)
             try:
-                impl = (f(a) if fn == "qasmu_gate" else f(*a)).full()
+                impl = call_fn(fn, a).full()
             except Exception as e:
                 impl = "exc:" + type(e).__name__
             inp = {"function": fn, "args": a}
@@ -239,13 +294,81 @@ class C09(PropertyCheck):
                     res.disagree(inp, str(want)[:200], str(got)[:200], "extracted call specification vs Gate.get_compact_qobj",
                                  {"kind": "gate", "name": name, "arg": arg})
 
+        # (d) model of controlled_gate (Model/Ctrl.lean) vs the implementation: every number of controls <= 3, every
+        #     placement on <= 4 qubits, every control value incl. the refused ones, N given / defaulted; argument shapes
+        self._corr_ctrl(ctx, res, drv)
+
+    def _corr_ctrl(self, ctx, res, drv):
+        import qutip
+        from qutip_qip.operations import controlled_gate
+        rng = ctx.rng
+        U = qutip.rand_unitary(2, seed=rng.randrange(10 ** 6)).full()
+        while min(abs(U.ravel())) < 0.05 or min(abs(U.ravel() - 1)) < 0.05:      # entries distinguishable from 0 and 1
+            U = qutip.rand_unitary(2, seed=rng.randrange(10 ** 6)).full()
+        UQ = qutip.Qobj(U)
+        val = {"z": 0, "o": 1, "a": U[0, 0], "b": U[0, 1], "c": U[1, 0], "d": U[1, 1]}
+        cases = []
+        for N in range(1, 5):
+            for m in range(0, 4):
+                if m + 1 > N:
+                    continue
+                for qs in itertools.permutations(range(N), m + 1):
+                    for v in range(-2 ** m - 1, 2 ** m + 2):
+                        for n in (N, None):
+                            cases.append((list(qs[:m]), [qs[m]], n, v, "placement"))
+        shapes = [(0, 1, None, 1), (1, 0, None, 1), (1, 0, None, 0), (2, 0, 3, 1), (0, [1], None, 1), ([0], 1, None, 1),
+                  ([0, 1], 2, 3, 1), ([0, 1], 2, None, 3), ([0], 1, None, 5), (0, [1], 4, 0), (0, 0, None, 1),
+                  ([0], [0], None, 1), ([0], [3], None, 1), ([0, 0], [3], 4, 1), ([], [0], None, 1), ([], [0], None, 0),
+                  ([0], [1, 2], None, 1), ([0], [], 1, 1), ([0], [], None, 1), ([0, 1], [], 2, 3), ([-1], [0], 2, 1),
+                  ([0], [-1], 2, 1), ([0], [1], 1, 1), ([0], [1], 0, 1), ([3], [1], 3, 1), ([2, 0], [1], 5, 2)]
+        for _ in range(40 if not ctx.thorough else 400):
+            m = rng.randint(0, 3)
+            N = rng.randint(1, 5)
+            cs = [rng.randint(-1, N) for _ in range(m)]
+            ts = [rng.randint(-1, N) for _ in range(rng.choice([1, 1, 1, 0, 2]))]
+            shapes.append((cs if rng.random() < 0.8 or m != 1 else cs[0], ts if rng.random() < 0.8 or len(ts) != 1 else ts[0],
+                           rng.choice([None, N]), rng.randint(-2 ** m - 1, 2 ** m + 1)))
+        cases += [(c, t, n, v, "shape") for c, t, n, v in shapes]
+
+        def fmt(a):
+            return "s:%d" % a if isinstance(a, int) else "l:" + ",".join(map(str, a))
+
+        outs = drv.run(["ctrl cs=%s ts=%s n=%s v=%d" % (fmt(c), fmt(t), "-" if n is None else n, v) for c, t, n, v, _ in cases])
+        for (c, t, n, v, tag), o in zip(cases, outs):
+            inp = {"controls": c, "targets": t, "N": n, "control_value": v}
+            try:
+                R = controlled_gate(UQ, controls=c, targets=t, N=n, control_value=v)
+                impl = ("ok", len(R.dims[0]), R.full())
+            except Exception as e:
+                impl = ("err", classify_ctrl_exc(e))
+            wellformed = (isinstance(c, list) and isinstance(t, list) and len(t) == 1 and len(set(c + t)) == len(c) + 1
+                          and all(0 <= q < (n if n is not None else len(c) + 1) for q in c + t) and 0 <= v < 2 ** len(c))
+            res.case(inp, nontrivial=True, tags=["controlled_gate-model", tag, "accepted" if o.startswith("ok") else o])
+            if wellformed:
+                wit = {"kind": "ctrl", "U_re": U.real.tolist(), "U_im": U.imag.tolist(), "controls": c, "targets": t,
+                       "N": n if n is not None else len(c) + 1, "value": v}
+            else:
+                wit = {"kind": "ctrl-malformed", "input": inp}
+            if o.startswith("err"):
+                if impl[0] != "err" or impl[1] != o.split()[1]:
+                    res.disagree(inp, o, impl[:2], "model of controlled_gate vs implementation (refusal)", wit)
+            elif o.startswith("ok"):
+                _, K, rows = o.split(" ")
+                M = np.array([[val[ch] for ch in r] for r in rows.split(";")], dtype=complex)
+                if impl[0] != "ok" or impl[1] != int(K) or M.shape != impl[2].shape or np.abs(M - impl[2]).max() > 1e-12:
+                    res.disagree(inp, o[:200], "error " + str(impl[1]) if impl[0] == "err" else np.round(impl[2], 4).tolist(),
+                                 "model of controlled_gate vs implementation (matrix)", wit)
+            else:
+                res.disagree(inp, o, impl[:2], "driver refused the request", wit)
+        res.notes.append("controlled_gate model: every placement of <= 3 controls + target on <= 4 qubits x every control value in "
+                         "[-2^m-1, 2^m+1] x N given/defaulted (complete), plus argument shapes and malformed placements")
+
     # ---------------------------------------------------------------------------------
     def oracle_replay(self, ctx, w):
         if w["kind"] == "fn":
             import importlib
             gm = importlib.import_module("qutip_qip.operations.gates")
-            f = getattr(gm, w["fn"])
-            U = (f(w["args"]) if w["fn"] == "qasmu_gate" else f(*w["args"])).full()
+            U = call_fn(w["fn"], w["args"]).full()
             d = np.abs(U.conj().T @ U - np.eye(U.shape[0])).max()
             if d > 1e-10:
                 return True, f"{w['fn']}{tuple(w['args'])} is not unitary (|U*U-1| = {d:.3g})"
@@ -253,7 +376,8 @@ class C09(PropertyCheck):
                      "t_gate": "T", "ct_gate": "CT", "rx": "RX", "ry": "RY", "rz": "RZ", "sqrtnot": "SQRTNOT", "snot": "SNOT",
                      "phasegate": "PHASEGATE", "qrot": "R", "qasmu_gate": "QASMU", "cnot": "CNOT", "csign": "CSIGN",
                      "berkeley": "BERKELEY", "swapalpha": "SWAPalpha", "swap": "SWAP", "iswap": "ISWAP", "sqrtswap": "SQRTSWAP",
-                     "sqrtiswap": "SQRTISWAP", "molmer_sorensen": "MS", "fredkin": "FREDKIN", "toffoli": "TOFFOLI"}
+                     "sqrtiswap": "SQRTISWAP", "molmer_sorensen": "MS", "fredkin": "FREDKIN", "toffoli": "TOFFOLI",
+                     "cphase": "CPHASE", "cls_RZX": "RZX"}
             n = fnmap[w["fn"]]
             a = w["args"]
             D = DOC[n](a[0] if len(a) == 1 else (a if a else None))
@@ -279,13 +403,23 @@ class C09(PropertyCheck):
             from props.c08 import spec_matrix
             U = np.array(w["U_re"]) + 1j * np.array(w["U_im"])
             cs, ts, N, v = w["controls"], w["targets"], w["N"], w["value"]
-            R = controlled_gate(qutip.Qobj(U), controls=cs, targets=ts, N=N, control_value=v).full()
+            try:
+                R = controlled_gate(qutip.Qobj(U), controls=cs, targets=ts, N=N, control_value=v).full()
+            except Exception as e:
+                return True, f"controlled_gate(controls={cs}, targets={ts}, N={N}, control_value={v}) raises {type(e).__name__}: {e}"
             nc = len(cs)
             blocks = np.eye(2 ** (nc + 1), dtype=complex)
             blocks[2 * v:2 * v + 2, 2 * v:2 * v + 2] = U
             exp = spec_matrix([2] * N, cs + ts, blocks)
+            if R.shape != exp.shape:
+                return True, f"controlled gate has shape {R.shape}, expected {exp.shape}"
             d = np.abs(R - exp).max()
-            return (d > 1e-12), f"controlled gate differs from the block specification by {d:.3g}"
+            if d > 1e-12:
+                return True, f"controlled gate differs from the block specification by {d:.3g}"
+            d = np.abs(R.conj().T @ R - np.eye(len(R))).max()
+            return (d > 1e-10), f"controlled gate of a unitary is not unitary (|R*R-1| = {d:.3g})" if d > 1e-10 else "block specification met"
+        if w["kind"] == "ctrl-malformed":
+            return False, "malformed request to controlled_gate (outside the property); only the refusal kind is compared"
         return False, "unknown witness"
 
     def _witnesses(self, ctx, n):
